@@ -45,7 +45,7 @@ impl InferShapes for Expand {
             // must have the same size in the output. Symbolic dimensions in the
             // input and dimensions of size 1 may broadcast.
             let data_dims: Vec<_> = data_dims.collect();
-            let pad_dims = shape_len.saturating_sub(data_dims.len() as i32);
+            let pad_dims = (shape_len - data_dims.len() as i32).max(0);
             let expanded_dims = data_dims.len().max(shape_len as usize) as i32;
             let out_dims = (0..expanded_dims)
                 .map(|i| {
@@ -521,7 +521,6 @@ impl InferShapes for Unsqueeze {
                 })
                 .collect::<Result<_, _>>()?;
             resolved_axes.sort();
-
             for axis in resolved_axes {
                 dims.insert(axis, SymExpr::Value(1));
             }
